@@ -275,3 +275,123 @@ def same(a, b):
 
 def equal_rat(a, b):
     return to_rat(a).equals(to_rat(b))
+
+
+# --------------------------------------------------------------------------
+# Laurent monomials with rational exponents over positive symbols (A.5)
+class Mono:
+    """sign * coef * prod(sym ** exp), coef > 0, symbols positive."""
+    __slots__ = ("sign", "coef", "exps")
+
+    def __init__(self, sign=1, coef=1, exps=None):
+        self.sign = sign
+        self.coef = Fraction(coef)
+        self.exps = {k: Fraction(v) for k, v in (exps or {}).items() if v != 0}
+        if self.coef < 0:
+            self.coef, self.sign = -self.coef, -self.sign
+        if self.coef == 0:
+            self.sign, self.exps = 0, {}
+
+    def __mul__(self, o):
+        e = dict(self.exps)
+        for k, v in o.exps.items():
+            e[k] = e.get(k, 0) + v
+        return Mono(self.sign * o.sign, self.coef * o.coef, e)
+
+    def inv(self):
+        return Mono(self.sign, 1 / self.coef, {k: -v for k, v in self.exps.items()})
+
+    def pow(self, q):
+        q = Fraction(q)
+        if self.sign < 0 and q.denominator != 1:
+            return None
+        c = _frac_pow(self.coef, q)
+        if c is None:
+            return None
+        sg = self.sign if (q.denominator == 1 and q.numerator % 2) else (1 if self.sign else 0)
+        return Mono(sg, c, {k: v * q for k, v in self.exps.items()})
+
+    def abs(self):
+        return Mono(1 if self.sign else 0, self.coef, self.exps)
+
+    def diff(self, sym):
+        e = self.exps.get(sym, 0)
+        if e == 0:
+            return Mono(0, 0)
+        ex = dict(self.exps)
+        ex[sym] = e - 1
+        return Mono(self.sign, self.coef * e, ex) if e > 0 else Mono(-self.sign, self.coef * (-e), ex)
+
+    def key(self):
+        return (self.sign, self.coef, tuple(sorted(self.exps.items())))
+
+    def __eq__(self, o):
+        return isinstance(o, Mono) and self.key() == o.key()
+
+    def __hash__(self):
+        return hash(self.key())
+
+    def __repr__(self):
+        if self.sign == 0:
+            return "0"
+        s = "-" if self.sign < 0 else ""
+        return s + str(self.coef) + "".join(f"*{k}^{v}" for k, v in sorted(self.exps.items()))
+
+
+def _frac_pow(c, q):
+    if q.denominator == 1:
+        return c ** int(q) if q >= 0 else 1 / (c ** int(-q))
+    # only perfect roots are representable
+    def root(n, d):
+        r = round(n ** (1.0 / d))
+        for cand in (r - 1, r, r + 1):
+            if cand >= 0 and cand ** d == n:
+                return cand
+        return None
+    a, b = root(c.numerator, q.denominator), root(c.denominator, q.denominator)
+    if a is None or b is None:
+        return None
+    return Fraction(a, b) ** q.numerator if q.numerator >= 0 else Fraction(b, a) ** (-q.numerator)
+
+
+def to_mono(t, env, const_lookup=None):
+    """Term -> Mono over the symbols in env ({term: symbol name}); None if outside the monomial domain."""
+    if t in env:
+        return Mono(1, 1, {env[t]: 1})
+    k = t[0]
+    if k == "const" and isinstance(t[1], (int, float)) and not isinstance(t[1], bool):
+        f = Fraction(t[1]).limit_denominator(10**9)
+        return Mono(1 if f > 0 else -1 if f < 0 else 0, abs(f))
+    if k == "neg":
+        m = to_mono(t[1], env, const_lookup)
+        return None if m is None else Mono(-m.sign, m.coef, m.exps)
+    if k == "bin":
+        a = to_mono(t[2], env, const_lookup)
+        b = to_mono(t[3], env, const_lookup)
+        if t[1] == "*":
+            return None if a is None or b is None else a * b
+        if t[1] == "/":
+            return None if a is None or b is None or b.sign == 0 else a * b.inv()
+        if t[1] == "**":
+            if a is None or b is None or b.exps or b.sign == 0 and False:
+                return None
+            return a.pow(b.coef * b.sign)
+        if t[1] in ("+", "-") and a is not None and b is not None and a.exps == b.exps:
+            v = a.sign * a.coef + (b.sign * b.coef if t[1] == "+" else -b.sign * b.coef)
+            return Mono(1 if v > 0 else -1 if v < 0 else 0, abs(v), a.exps)
+        return None
+    if k == "call" and not t[3] and len(t[2]) == 1:
+        if t[1] == G("numpy.sqrt"):
+            a = to_mono(t[2][0], env, const_lookup)
+            return None if a is None else a.pow(Fraction(1, 2))
+        if t[1] == G("numpy.square"):
+            a = to_mono(t[2][0], env, const_lookup)
+            return None if a is None else a * a
+        if t[1] == G("numpy.abs"):
+            a = to_mono(t[2][0], env, const_lookup)
+            return None if a is None else a.abs()
+    if k == "global" and const_lookup is not None:
+        d = const_lookup(t[1])
+        if d is not None:
+            return to_mono(d, env, const_lookup)
+    return None
